@@ -68,6 +68,61 @@ def strategy(tier):
     return strat()
 
 
+GRID_TEMPLATES = (
+    'r = call(a, *b, j=2,\n         m=3)', 'r = call(a, b, c)', 'r = call(\n    a,\n    b,\n    k=1,  # c\n)', 'r = call(a, k=1, *b, m=2,\n  **kw)',
+    'r = call(aa, g(\n x\n), b, k=1)', 'class C(A, *bs, m=1,\n        n=2): pass', 'class C(\n    A,\n    B,\n): pass',
+    'r = [a, b, c]', 'r = [\n    a,  # c1\n    b,\n    c,\n]', 'r = (a,\n     b, c)', 'r = a, b, c', 'r = {a, b,\n     c}', 'r = {a: 1, **b,\n     c: 2}',
+    'a = b = c = 1', 'del a, b[0], c.d', 'with a as x, b, c as (y,\n z): pass', 'with (\n    a as x,\n    b,\n): pass',
+    'import a, b.c as d, e', 'from m import (a,\n    b as c,\n    d)', 'global a, b, c',
+    '@d1\n@d2(x)\n@d3\ndef f(): pass', 'r = [i for i in a if b if c\n     if d]', 'r = [i for i in a for j in b\n     for k in c]',
+    'def f(a, /, b, c=1, *d, e, f=2, **g): pass', 'def f(a,\n      b=1,\n      *, c): pass', 'r = lambda a, b=1, *c, d: 0',
+    'r = a < b <= c\\\n    != d', 'r = a and b and c\\\n    and d', 'r = a or b or c',
+    'match s:\n    case [a, b, *c]: pass\n    case C(a, b, k=1,\n           m=2): pass\n    case {1: a, 2: b, **r}: pass\n    case a | b | c: pass',
+    'if a:\n    x\n    y  # c\n\n    z\nelse:\n    w', 'try:\n    a\nexcept A: b\nexcept B as e:\n    c\nexcept C: d', 'def f[T, *U,\n      **V](): pass',
+    'x\ny; z\n# c\nw',
+)
+
+
+def enumerate_cases(tier, shard, nshards, seed):
+    """Index grid on templates: every container of every template x every (start, stop) in -n-1..n+1 and 'end' x 3 donors x {slice put, slice
+    delete, single put, single delete} in src and fst form. Thorough: complete; quick: seeded third."""
+
+    k = 0
+
+    for src in GRID_TEMPLATES:
+        try:
+            conts = em.container_targets(ast.parse(src))
+        except SyntaxError:
+            continue
+
+        for ci, (parent, field, n0) in enumerate(conts):
+            try:
+                n = len(c07.orig_elements(parent, field))
+            except Exception:
+                continue
+
+            rng = list(range(-n - 1, n + 2)) + [7]
+
+            for start in rng:
+                for stop in rng:
+                    for mode in ('slice', 'slice_del', 'single', 'single_del'):
+                        if mode.startswith('single') and stop != rng[0]:
+                            continue  # single element operations only use start
+
+                        for ds in ((0, 1, 2) if not mode.endswith('del') else (0,)):
+                            for form in (('src', 'fst') if not mode.endswith('del') else ('src',)):
+                                k += 1
+
+                                if k % nshards != shard:
+                                    continue
+
+                                if tier == 'quick' and (k * 2654435761 + seed * 40503) % 3:
+                                    continue
+
+                                yield {'src': src, 'csel': ci, 'start': start, 'stop': stop, 'dsel': ds, 'form': form, 'delete': mode.endswith('del'),
+                                       'single': mode.startswith('single'), 'layout': [], 'prefer_virtual': False, 'grid': True}
+
+
 def new_elements(kind, donor):
     """CPython parse of the donor into a list of element ASTs (pure)."""
 
